@@ -111,6 +111,44 @@ fn over_clauses(sql: &str) -> Vec<String> {
     out
 }
 
+/// what a window clause says, independent of how its operands are spelled (a computed key may be
+/// inlined or carried as a helper column): number of partition keys, direction of each order key,
+/// frame text
+fn over_sig(clause: &str) -> String {
+    let inner = if clause.len() >= 2 { &clause[1..clause.len() - 1] } else { clause };
+    let (pre, frame) = match inner.find("ROWS BETWEEN").or_else(|| inner.find("RANGE BETWEEN")) {
+        Some(i) => (&inner[..i], inner[i..].trim()),
+        None => (inner, ""),
+    };
+    let (part, order) = match pre.find("ORDER BY") {
+        Some(i) => (&pre[..i], pre[i + 8..].trim()),
+        None => (pre, ""),
+    };
+    fn pieces(s: &str) -> Vec<String> {
+        let (mut depth, mut cur, mut out) = (0i32, String::new(), vec![]);
+        for ch in s.chars() {
+            match ch {
+                '(' => depth += 1,
+                ')' => depth -= 1,
+                ',' if depth == 0 => {
+                    out.push(cur.trim().to_string());
+                    cur.clear();
+                    continue;
+                }
+                _ => {}
+            }
+            cur.push(ch);
+        }
+        if !cur.trim().is_empty() {
+            out.push(cur.trim().to_string());
+        }
+        out
+    }
+    let nparts = part.find("PARTITION BY").map(|i| pieces(&part[i + 12..]).len()).unwrap_or(0);
+    let dirs: String = pieces(order).iter().map(|k| if k.ends_with(" DESC") { 'D' } else { 'A' }).collect();
+    format!("P{nparts} O[{dirs}] F[{frame}]")
+}
+
 pub fn check_over(c: &OverCase, _known: &Known) -> Outcome {
     use crate::util::{self, Compiled, DIALECTS};
     let re = regex::Regex::new(&format!(r"\b{}\b", c.from_fn)).unwrap();
@@ -124,12 +162,18 @@ pub fn check_over(c: &OverCase, _known: &Known) -> Outcome {
     for (dn, d) in DIALECTS {
         let (a, b) = (util::compile(&c.source, Some(*d)), util::compile(&swapped, Some(*d)));
         let (Compiled::Sql(a), Compiled::Sql(b)) = (a, b) else { continue };
-        let (oa, ob) = (over_clauses(&a), over_clauses(&b));
-        if oa.is_empty() {
+        let sigs = |sql: &str| -> Vec<String> {
+            let mut v: Vec<String> = over_clauses(sql).iter().map(|o| over_sig(o)).collect();
+            v.sort();
+            v
+        };
+        let (oa, ob) = (sigs(&a), sigs(&b));
+        // (the function occurs in several contexts and the statements differ in shape: not comparable)
+        if oa.is_empty() || oa.len() != ob.len() {
             continue;
         }
         compared += 1;
-        if oa != ob && util::genuinely_different(&|| format!("{:?}", over_clauses(&match util::compile(&c.source, Some(*d)) { Compiled::Sql(s) => s, _ => String::new() })), &|| format!("{:?}", over_clauses(&match util::compile(&swapped, Some(*d)) { Compiled::Sql(s) => s, _ => String::new() }))) {
+        if oa != ob && util::genuinely_different(&|| format!("{:?}", sigs(&match util::compile(&c.source, Some(*d)) { Compiled::Sql(s) => s, _ => String::new() })), &|| format!("{:?}", sigs(&match util::compile(&swapped, Some(*d)) { Compiled::Sql(s) => s, _ => String::new() }))) {
             return Outcome::fail(
                 &format!("under {dn} the window clause depends on the aggregation function ({} vs {})", c.from_fn, c.to_fn),
                 serde_json::json!({"source": c.source, "swapped": swapped, "dialect": dn, "over_clauses": oa, "over_clauses_swapped": ob, "sql": a, "sql_swapped": b}),
